@@ -45,8 +45,9 @@ EXCEPTIONS = [
     # ---- encoder ----------------------------------------------------------------------------------
     dict(fn="encoder::encode_rmi", what="index", desc="BitView::view_bits(arg2)[RangeTo{end:Add(1,var:usize)}]", count=1,
          reason="last is an enumerate() index over the bits of data, and encode_rmi is only called with the non-empty buffer a range bit was just written to (C07.R2), so last + 1 <= bits.len()", requires=["C07.R2"]),
-    dict(fn="encoder::encode_rmi", what="bitload", desc="BitField::load(try(Iterator::next(var:Chunks<*>)))", count=1,
-         reason="chunks(6) yields non-empty chunks of at most 6 bits; load::<u8> accepts 1..=8 bits"),
+    dict(fn="encoder::encode_rmi", what="bitload", desc="BitField::load(*)", count=1,
+         reason="the one load of encode_rmi reads a chunk of chunks(6) (C07.R6: one chunks(6), one load::<u8>, fed to encode_byte): non-empty, at most 6 bits; load::<u8> accepts 1..=8 bits",
+         requires=["C07.R6"]),
     dict(fn="encoder::encode_rmi::encode_byte", what="panic", desc="panicking::begin_panic('invalid byte')", count=1,
          reason="the argument is a load of at most 6 bits (< 64); the match covers 0..=63 (C07.R6 checks the table over all 256 values)", requires=["C07.R6"]),
     dict(fn="encoder::serialize_range_mappings", what="Overflow:Add:u32", desc="var:u32,1", count=1,
